@@ -4,7 +4,7 @@ virtual time (per-job over pool default, map/imap never timed out, result
 just before / after the scan), TERM-then-KILL recorded per pid.  Lane REAL
 (vmon.real_c05): real pools of every size incl. 1, tasks that ignore TERM,
 probes submitted afterwards, host process must survive; a job finishing in time
-whose slow result callback is still running when the limit's instant passes."""
+whose slow result callback is still running when the limit's instant passes.  Jobs waiting in the queue behind the job that runs out of time (warm workers, a task that turns the interruption into its own exception) are served by the replacement."""
 from vmon import simcheck
 
 PROPERTY = 'C05'
